@@ -23,7 +23,8 @@ def t2s(x, kind='rat'):
 
 
 TIME_POS = {'sleep': [1], 'after': [1], 'before': [1], 'moment': [1], 'delay': [1], 'start': [1],
-            'transfer': [2, 3], 'interval': [1], 'delayiter': [1], 'nestedrun': [1], 'pipes': 'all'}
+            'transfer': [2, 3], 'interval': [1], 'delayiter': [1], 'nestedrun': [1], 'pipes': 'all',
+            'newtimeout': [2], 'yieldtimeout': [1], 'yieldcoro': [1], 'pyuntil': [1], 'pywith': [1], 'time': [1]}
 
 
 def close_unstarted(coros):
@@ -85,6 +86,10 @@ def parse_reply(reply):
 # ------------------------------------------------------------------------------------------------
 class _Ret(Exception):
     pass
+
+
+class _Unbound(Exception):
+    """a SimPy program used a variable that was never assigned"""
 
 
 class Interp:
@@ -164,6 +169,17 @@ class Interp:
         u = self.usim
         from usim._core.loop import Interrupt, ActivityLeak
         from usim._primitives.context import ScopeClosed
+        from usim.py.exceptions import Interrupt as PyInterrupt, StopSimulation
+        if isinstance(e, PyInterrupt):
+            return [16, e.cause if isinstance(e.cause, int) else 0]
+        if isinstance(e, StopSimulation):
+            return [18]
+        if isinstance(e, RuntimeError) and 'has already been triggered' in str(e):
+            return [17]
+        if isinstance(e, RuntimeError) and 'raised StopIteration' in str(e):
+            return [19]
+        if isinstance(e, _Unbound):
+            return [21]
         if isinstance(e, u.Concurrent):
             if nested:
                 return [3]
@@ -540,6 +556,37 @@ class Interp:
             self.pending_collect = (base, len(holders), holders)
             results = await self.collect_call(collect, coros, holders)
             self.emit(label, 'collected', [0 if v is None else v for v in results])
+        elif h == 'pyuntil':
+            # ['pyuntil', t0, None | ['time', t] | ['event', x], ['setup', instr...]]
+            env = self.py_env()
+            u = s[2]
+            self.emit(label, 'pyuntil', ([0, 0, 1] if u is None else (([1] + tpair(u[1], self.kind)) if u[0] == 'time' else [2, u[1], 1]))
+                      + tpair(s[1], self.kind))
+            for ins in s[3][1:]:
+                self.py_instr(label, ins)
+            await env.until(None if u is None else (self.tv(u[1]) if u[0] == 'time' else self.py_var(u[1])))
+            self.emit(label, 'pydone')
+        elif h == 'pywith':
+            env = self.py_env()
+            self.emit(label, 'pyuntil', [3, 0, 1] + tpair(s[1], self.kind))
+            for ins in s[2][1:]:
+                self.py_instr(label, ins)
+            async with env:
+                await self.block(label, s[3:])
+            self.emit(label, 'pydone')
+        elif h == 'pydo':
+            self.py_instr(label, s[1])
+        elif h == 'pyawait':
+            ev = self.py_var(s[1])
+            try:
+                v = await ev
+            except BaseException as e:    # noqa
+                if ev._value is not None and ev._value[1] is e:
+                    self.emit(label, 'pygot', [1] + self.exn_code(e, True))
+                else:
+                    raise
+            else:
+                self.emit(label, 'pygot', self.py_value_code(v))
         elif h == 'first':
             # ['first', count|None, break_after|None, ['progs', prog...], body...]
             from usim import first
@@ -597,6 +644,214 @@ class Interp:
                     self.quiet = False
         else:
             raise ValueError('unknown statement %r' % (s,))
+
+    # -- usim.py ------------------------------------------------------------------------------
+    def py_env(self):
+        if getattr(self, '_py_env', None) is None:
+            from usim.py import Environment
+            from usim.py.core import EnvironmentScope
+            interp = self
+
+            class CountingScope(EnvironmentScope):
+                """every coroutine the environment schedules becomes a task: keep the task numbering in step"""
+                def do(inner, payload, *, after=None, at=None, volatile=False):
+                    task = super().do(payload, after=after, at=at, volatile=volatile)
+                    interp.task_count += 1
+                    return task
+            t0 = 0
+            for st in self.all_statements():
+                if st[0] in ('pyuntil', 'pywith'):
+                    t0 = st[1]
+                    break
+            env = Environment(initial_time=self.tv(t0))
+            env._scope = CountingScope()
+            self._py_env = env
+            self.py_vars = {}
+            self.py_events = []
+            self.py_index = {}
+            self.py_procidx = {}
+            self.py_nprocs = 0
+        return self._py_env
+
+    def all_statements(self):
+        def walk(x):
+            if isinstance(x, list):
+                if x and isinstance(x[0], str):
+                    yield x
+                for e in x:
+                    yield from walk(e)
+        for r in self.fields.get('roots', []):
+            yield from walk(r)
+
+    def py_var(self, x):
+        self.py_env()
+        if x not in self.py_vars:
+            raise _Unbound(x)
+        return self.py_vars[x]
+
+    def py_register(self, x, ev):
+        self.py_index[id(ev)] = len(self.py_events)
+        self.py_events.append(ev)
+        if x is not None:
+            self.py_vars[x] = ev
+        return ev
+
+    def py_create(self, lbl, x, desc, make):
+        """create an event and log its creation (constructors log nothing themselves)"""
+        idx = len(self.py_events)
+        ev = make()
+        self.py_register(x, ev)
+        if desc[0] == 2:
+            self.py_procidx[id(ev)] = desc[1]
+        self.emit(lbl, 'pynew', [idx, -1 if x is None else x] + desc)
+        return ev
+
+    def py_value_code(self, v):
+        from usim.py.events import ConditionValue
+        if isinstance(v, ConditionValue):
+            return [2] + [self.py_index.get(id(e), -1) for e in v.events]
+        if v is None:
+            return [0, -9]
+        if isinstance(v, bool):
+            return [0, int(v)]
+        if isinstance(v, int):
+            return [0, v]
+        return [0, -7]
+
+    def py_instr(self, lbl, ins):
+        """one synchronous SimPy API call"""
+        env = self.py_env()
+        h = ins[0]
+        if h == 'plog':
+            self.emit(lbl, 'log', [ins[1]])
+        elif h == 'newevent':
+            self.py_create(lbl, ins[1], [0], env.event)
+        elif h == 'newtimeout':
+            self.py_create(lbl, ins[1], [1] + tpair(ins[2], self.kind) + [ins[3]], lambda: env.timeout(self.tv(ins[2]), ins[3]))
+        elif h == 'newproc':
+            p = self.py_nprocs
+            self.py_nprocs += 1
+            gen = self.py_gen(p, ins[2][1:])
+            self.py_create(lbl, ins[1], [2, p], lambda: env.process(gen))
+        elif h == 'newcond':
+            members = [self.py_var(m) for m in ins[3][1:]]
+            self.py_create(lbl, ins[1], [3 if ins[2] == 'all' else 4] + [self.py_index[id(m)] for m in members],
+                           lambda: (env.all_of if ins[2] == 'all' else env.any_of)(members))
+        elif h == 'succeed':
+            ev = self.py_var(ins[1])
+            try:
+                ev.succeed(ins[2])
+            except RuntimeError as e:
+                if 'has already been triggered' not in str(e):
+                    raise
+                self.emit(lbl, 'twice', [ins[1]])
+            else:
+                self.emit(lbl, 'pytrig', [self.py_index[id(ev)], 1, ins[2]])
+        elif h == 'fail':
+            ev = self.py_var(ins[1])
+            if ev._value is not None:
+                try:
+                    ev.fail(KeyError())
+                except RuntimeError:
+                    self.emit(lbl, 'twice', [ins[1]])
+                return
+            e = self.classes[ins[2]]()
+            e.verif_label = self.user_raises
+            self.user_raises += 1
+            ev.fail(e)
+            self.emit(lbl, 'pytrig', [self.py_index[id(ev)], 0] + self.exn_code(e, True))
+        elif h == 'trigger':
+            ev, src = self.py_var(ins[1]), self.py_var(ins[2])
+            ev.trigger(src)
+        elif h == 'interrupt':
+            ev = self.py_var(ins[1])
+            if not hasattr(ev, 'interrupt'):
+                raise _Unbound(ins[1])
+            ev.interrupt(ins[2])
+            self.emit(lbl, 'pyintr', [self.py_procidx[id(ev)], ins[2]])
+        elif h == 'addcb':
+            ev = self.py_var(ins[1])
+            idx = self.py_index[id(ev)]
+            if ev.callbacks is not None:
+                ev.callbacks.append(lambda _e, k=ins[2], idx=idx: self.emit(4000 + idx, 'cb', [k]))
+                self.emit(lbl, 'addcb', [idx, ins[2]])
+            else:
+                self.emit(lbl, 'latecb', [ins[1], ins[2]])
+        elif h == 'probe':
+            ev = self.py_var(ins[1])
+            if ev._value is None:
+                code = [3]
+            elif ev._value[1] is not None:
+                code = [1] + self.exn_code(ev._value[1], True)
+            else:
+                code = self.py_value_code(ev._value[0])
+            self.emit(lbl, 'pystate', [ins[1], int(ev.triggered), int(ev.processed), int(ev.ok)] + code)
+        else:
+            raise ValueError('unknown SimPy instruction %r' % (ins,))
+
+    async def py_coro(self, d, v, fail):
+        """a native activity: takes `d`, then returns `v` (`0`, `False` .. are results like any other) or fails"""
+        from usim import time
+        await (time + self.tv(d))
+        if fail is not None:
+            e = self.classes[fail]()
+            e.verif_label = self.user_raises
+            self.user_raises += 1
+            raise e
+        return v
+
+    def py_gen(self, p, code):
+        """the generator of SimPy process number `p`; how it ends is logged"""
+        lbl = 5000 + p
+        try:
+            v = yield from self.py_gen_body(p, code)
+        except GeneratorExit:
+            raise
+        except BaseException as e:    # noqa
+            self.emit(lbl, 'pyend', [1] + self.exn_code(e, True))
+            raise
+        else:
+            self.emit(lbl, 'pyend', [0, -9 if v is None else v])
+            return v
+
+    def py_gen_body(self, p, code):
+        lbl = 5000 + p
+        env = self.py_env()
+        step = 0
+        for ins in code:
+            h = ins[0]
+            if h in ('yield', 'yieldtimeout', 'yieldnative', 'yieldcoro'):
+                if h == 'yield':
+                    target = self.py_var(ins[1])
+                elif h == 'yieldtimeout':
+                    target = self.py_create(lbl, None, [1] + tpair(ins[1], self.kind) + [ins[2]], lambda: env.timeout(self.tv(ins[1]), ins[2]))
+                elif h == 'yieldcoro':
+                    target = self.py_coro(ins[1], ins[2], ins[3])
+                else:
+                    n = ins[1]
+                    from usim import time
+                    target = (time + self.tv(n[1])) if n[0] == 'delay' else self.cond(n[1])
+                step += 1
+                self.emit(lbl, 'pyyield', [step, self.py_index.get(id(target), -1), 0, 0])
+                try:
+                    r = yield target
+                except GeneratorExit:
+                    raise
+                except BaseException as e:    # noqa
+                    self.emit(lbl, 'recv', [step, 1] + self.exn_code(e, True))
+                    if not ins[-1]:
+                        raise
+                else:
+                    self.emit(lbl, 'recv', [step] + self.py_value_code(r))
+            elif h == 'pret':
+                return ins[1]
+            elif h == 'praise':
+                e = self.classes[ins[1]]()
+                e.verif_label = self.user_raises
+                self.user_raises += 1
+                raise e
+            else:
+                self.py_instr(lbl, ins)
 
     async def collect_call(self, collect, coros, holders):
         # register the tasks that collect() creates (in order) by watching the task counter
